@@ -968,6 +968,6 @@ pub fn run(ctx: &Ctx) -> i32 {
     if tier == Tier::Thorough {
         fuzz_campaign(ctx, "fuzz_lines", 8, 40_000, 1024, &mut stats);
     }
-    let rule = "cases = proptest-generated sequences of 0-40 control lines from the protocol grammar (u8 writes to a pool of 8 RAM/DRAM cells incl. region ends, to port DDR/DR 1-A and to unmapped addresses; ioport pin lines incl. invalid ports; cmd:pause/start/stop incl. an early stop; ~27 malformed shapes: wrong field counts such as `cmd:a:b`, non-hex, empty, over-long, negative, prefixed, upper-case heads, unknown heads, empty line, non-ASCII) delivered to a guest echo loop under three schedules (all lines queued before the loop starts = one deterministic batch; one line per short pause; random bursts from a second thread), always ended by cmd:stop with a watchdog (a stop that is not acted on is a lost line, a real hang is exit 2); plus real-TCP runs: guests that emit adversarial UTF-8 texts (newline, backslash, `\\\\n`, multi-byte) whose wire bytes are split on newline and unescaped with the harness's own inverse, and line sequences written to the socket in odd chunks. Oracle = reference interpreter of the protocol (byte map, pins, latch/direction): final cells, pin bytes, DDR, DR reads and the sequence of announced output changes equal the model for every schedule; one wire line per emitted message, in order, unescape(line) == message, escape injective. Non-trivial = a malformed/ineffective line followed by an effective one, or a pause..start window containing effective lines, or an outgoing text with newline/backslash.";
+    let rule = "cases = proptest-generated sequences of 0-40 control lines from the protocol grammar (u8 writes to a pool of 8 RAM/DRAM cells incl. region ends, to port DDR/DR 1-A and to unmapped addresses; ioport pin lines incl. invalid ports; cmd:pause/start/stop incl. an early stop; ~27 malformed shapes: wrong field counts such as `cmd:a:b`, non-hex, empty, over-long, negative, prefixed, upper-case heads, unknown heads, empty line, non-ASCII) delivered to a guest echo loop under three schedules (all lines queued before the loop starts = one deterministic batch; one line per short pause; random bursts from a second thread), always ended by cmd:stop with a watchdog (a stop that is not acted on is a lost line, a real hang is exit 2); plus real-TCP runs: guests that emit adversarial UTF-8 texts (newline, backslash, `\\\\n`, multi-byte) whose wire bytes are split on newline and unescaped with the harness's own inverse, and line sequences written to the socket in odd chunks. Real-binary phase: 48 (quick) / 1200 (thorough) generated programs (C13's generator; 1 in 4 ends with a burst of port messages) through the release binary started with -s -w over TCP: lines received, unescaped, == `ready` + the messages of the in-process run - nothing lost when the process exits. Rare class: batches of 255-4096 lines between two polls. Oracle = reference interpreter of the protocol (byte map, pins, latch/direction): final cells, pin bytes, DDR, DR reads and the sequence of announced output changes equal the model for every schedule; one wire line per emitted message, in order, unescape(line) == message, escape injective. Non-trivial = a malformed/ineffective line followed by an effective one, or a pause..start window containing effective lines, or an outgoing text with newline/backslash.";
     finish(ctx, P, stats, rule, vec!["interleavings of the socket worker threads with the CPU loop are sampled by the OS, not enumerated; the one-batch schedule is deterministic".into(), "that a paused guest executes nothing is not asserted (it would need a wall-clock absence check)".into()], Map::new())
 }
